@@ -119,6 +119,48 @@ def run_one(case):
         return dict(desc, kind='exception', error='%s: %s' % (type(e).__name__, str(e)[:200]))
 
 
+def run_implicit(case):
+    """Approximated partials of an IMPLICIT component (residual r = y**2 + 3 x - 1 at a point where r != 0) under solver
+    scaling ref / res_ref: the approximation is a property of the physical function, so it must not depend on the scaling."""
+    import openmdao.api as om
+    method, form, ref, res_ref = case
+    desc = dict(component='implicit', method=method, form=form, ref=ref, res_ref=res_ref)
+    try:
+        kw = dict(method=method)
+        if method == 'fd':
+            kw['form'] = form
+
+        class C(om.ImplicitComponent):
+            def setup(self):
+                self.add_input('x', np.array([2.0, -1.0]))
+                self.add_output('y', np.array([3.0, 0.5]), ref=ref, res_ref=res_ref)
+                self.declare_partials('*', '*', **kw)
+
+            def apply_nonlinear(self, i, o, r):
+                r['y'] = o['y'] ** 2 + 3.0 * i['x'] - 1.0
+        p = om.Problem(reports=False)
+        p.model.add_subsystem('c', C())
+        p.setup(force_alloc_complex=True)
+        p.final_setup()
+        p.model.run_apply_nonlinear()
+        snap = [p.model._inputs.asarray(copy=True), p.model._outputs.asarray(copy=True), p.model._residuals.asarray(copy=True)]
+        p.model.run_linearize()
+        after = [p.model._inputs.asarray(), p.model._outputs.asarray(), p.model._residuals.asarray()]
+        for nm, a, b in zip(('inputs', 'outputs', 'residuals'), snap, after):
+            if not np.allclose(a, b, rtol=1e-14, atol=0):
+                return dict(desc, kind='side effect: %s changed by computing the approximation' % nm)
+        sj = p.model.c._jacobian._subjacs
+        Jy = np.asarray(sj[('c.y', 'c.y')].todense() if hasattr(sj[('c.y', 'c.y')], 'todense') else sj[('c.y', 'c.y')].get_val())
+        Jx = np.asarray(sj[('c.y', 'c.x')].todense() if hasattr(sj[('c.y', 'c.x')], 'todense') else sj[('c.y', 'c.x')].get_val())
+        ey, ex = np.diag([6.0, 1.0]), 3.0 * np.eye(2)
+        tol = 1e-9 if method == 'cs' else 1e-4
+        if not np.allclose(Jy, ey, atol=tol) or not np.allclose(Jx, ex, atol=tol):
+            return dict(desc, kind='approximation outside the truncation error of its method', dr_dy=Jy.tolist(), dr_dx=Jx.tolist(), exact_dr_dy=ey.tolist(), exact_dr_dx=ex.tolist())
+        return dict(ok=True)
+    except Exception as e:      # noqa
+        return dict(desc, kind='exception', error='%s: %s' % (type(e).__name__, str(e)[:200]))
+
+
 def main(tier):
     big = tier != 'quick'
     fds = [dict(method='fd'), dict(method='fd', form='central'), dict(method='fd', form='backward', step=1e-5),
@@ -142,6 +184,12 @@ def main(tier):
     import multiprocessing as mp
     with mp.get_context('fork').Pool(16) as pool:
         res = pool.map(run_one, cases, chunksize=4)
+    icases = [(m, f, ref, rr) for m, forms in (('fd', ('forward', 'backward', 'central')), ('cs', (None,))) for f in forms
+              for ref in (1.0, 5.0) for rr in (None, 1.0, 10.0, 0.01)]
+    with mp.get_context('fork').Pool(16) as pool:
+        ires = pool.map(run_implicit, icases, chunksize=2)
+    res = list(res) + list(ires)
+    cases = list(cases) + [(0, 'implicit', dict(method=c[0], form=c[1]), dict(ref=c[2], res_ref=c[3]), None) for c in icases]
     fails = [r for r in res if not r.get('ok')]
     print(json.dumps({'evaluations': len(cases), 'distinct_nontrivial': sum(1 for c, r in zip(cases, res) if r.get('ok') and c[4] is not None and not r.get('note')),
                       'n_failures': len(fails), 'failures': fails[:30], 'coloring_not_activated': sum(1 for r in res if r.get('note')),
